@@ -234,6 +234,18 @@ func c16ResultPolluter(ei, mi int) *execSpec {
 		Main: fmt.Sprintf("%s，得到果\n（显示：“先”、果）\n以果（%s）\n（显示：“后”、果）\n输出“污染者结束”%s", e[0], m, guard)}
 }
 
+// c16Response: a program that builds an HTTP响应 (the real class of pkg/common, exported by the
+// library @HTTP) from one of three kinds of body and either changes its parts in place or only
+// displays them.
+func c16Response(body int, patch bool) *execSpec {
+	b := []string{"“正文”", "【“a” = 1】", "5"}[body]
+	kind := []string{"text", "json", "number"}[body]
+	if patch {
+		return &execSpec{ID: "http-response-patched:" + kind, Mode: "script", Main: "导入《@HTTP》\n\n令响 = （新建HTTP响应：200、" + b + "）\n以响 之 头部（写入：“Set-Cookie”、“secret”）\n以响 之 头部（移除：“Content-Type”）\n以响 之 状态码（自增：1）\n（显示：响 之 头部）\n输出“污染者结束”\n\n拦截异常：\n\t输出“挡住”\n"}
+	}
+	return &execSpec{ID: "http-response-read:" + kind, Mode: "script", Main: "导入《@HTTP》\n\n令响 = （新建HTTP响应：200、" + b + "）\n（显示：响 之 头部、响 之 状态码、响 之 内容）\n令默 = （新建HTTP响应：200、" + b + "、【“X” = “1”】）\n（显示：默 之 头部）\n输出“读完响应”\n"}
+}
+
 // c16HTTPSpec: one request to a ZnHttpHandler. shape selects the request (no query string and
 // no extra header / a query string / extra headers / a JSON body); the entry program either
 // fills defaults into the parts of 当前请求 in place (patch) or only displays them.
@@ -313,6 +325,8 @@ func c16Related(t *zsim.Tape, p *execSpec) *execSpec {
 		return v([]uint32{4, 9, 10}[t.Draw(3)])
 	case id == "dies-mid-call":
 		return v([]uint32{6, 2, 3}[t.Draw(3)])
+	case strings.HasPrefix(id, "http-response-patched:"):
+		return v(14, map[string]uint32{"text": 0, "json": 1, "number": 2}[strings.TrimPrefix(id, "http-response-patched:")])
 	case strings.HasPrefix(id, "http-request-patched/"):
 		shape := uint32(id[len(id)-1] - '0')
 		if t.Draw(2) == 1 {
@@ -332,7 +346,9 @@ func c16Related(t *zsim.Tape, p *execSpec) *execSpec {
 func c16Polluter(t *zsim.Tape) *execSpec {
 	gs := c16Globals()
 	guard := "\n\n拦截异常：\n\t输出“挡住”\n"
-	switch t.Draw(19) {
+	switch t.Draw(20) {
+	case 19: // an object of a real library class whose parts are changed in place
+		return c16Response(t.Draw(3), true)
 	case 18: // an entry program that changes the parts of ITS OWN request object in place
 		return c16HTTPSpec("http-request-patched", t.Draw(4), true)
 	case 17: // the result of a built-in method, bound without a copy and changed in place
@@ -396,7 +412,9 @@ func c16Polluter(t *zsim.Tape) *execSpec {
 // victim draws a program from the fixed battery that reads predefined state.
 func c16Victim(t *zsim.Tape) *execSpec {
 	gs := c16Globals()
-	switch t.Draw(14) {
+	switch t.Draw(15) {
+	case 14:
+		return c16Response(t.Draw(3), false)
 	case 13: // an entry program that only looks at its request
 		return c16HTTPSpec("http-request-read", t.Draw(4), false)
 	case 12: // the byte-identical document parsed again and only read
@@ -493,6 +511,9 @@ func c16EnumPolluters() []*execSpec {
 	for shape := 0; shape < 4; shape++ {
 		out = append(out, c16HTTPSpec("http-request-patched", shape, true))
 	}
+	for body := 0; body < 3; body++ {
+		out = append(out, c16Response(body, true))
+	}
 	for class := 0; class < 3; class++ {
 		doc, size := c16Doc(class)
 		out = append(out, &execSpec{ID: "json-doc-patched:" + size, Mode: "script", Main: "导入《@JSON》\n\n（解析JSON：“" + doc + "”），得到配置\n以配置（写入：“已处理”、“是”）\n配置 # “retries” = 42\n输出“污染者结束”" + guard})
@@ -503,7 +524,7 @@ func c16EnumPolluters() []*execSpec {
 	return out
 }
 
-const c16Victims = 14
+const c16Victims = 15
 
 func c16PartA(t *zsim.Tape, cfg *hlib.Config) *hlib.Outcome {
 	sc := &c16Scenario{Part: "A:history"}
